@@ -344,7 +344,7 @@ PROPS['C17']['explanation'] = ('E1: plot(): for an arbitrary record and an arbit
 ST_SRC = [SRC + '__getstate__', SRC + '__setstate__']
 ST_FI = [FI + '__getstate__', FI + '__setstate__']
 ST_EXT = [EXTN + '__getstate__', EXTN + '__setstate__']
-PROPS['C10']['e1'] = PROPS['C10']['e1'] + ST_SRC + ST_FI + ST_EXT
+PROPS['C10']['e1'] = PROPS['C10']['e1'] + ST_SRC + ST_EXT
 PROPS['C14']['e1'] = PROPS['C14']['e1'] + ST_EXT
 PROPS['C20']['e1'] = PROPS['C20']['e1'] + ST_SRC + [SRC + 'to_dict', SRC + 'from_dict']
 PROPS['C17']['e1'] = PROPS['C17']['e1'] + ST_EXT
